@@ -175,9 +175,10 @@ class Model():
         An asset matching the name if it exists in the model.
         """
 
-        # Set asset ID and check for duplicates
-        asset.id = asset_id if asset_id is not None else self.next_id
-        if asset.id in self.asset_ids:
+        # Check for duplicates, then set the asset ID: a rejected asset
+        # must keep the id it has (it may be part of the model already).
+        new_asset_id = asset_id if asset_id is not None else self.next_id
+        if new_asset_id in self.asset_ids:
             raise ValueError(f'Asset index {asset_id} already in use.')
         if hasattr(asset, 'name') and asset.name in self.asset_names \
                 and not allow_duplicate_names:
@@ -185,6 +186,7 @@ class Model():
                 f'Asset name {asset.name} is a duplicate'
                 ' and we do not allow duplicates.'
             )
+        asset.id = new_asset_id
         self.asset_ids.add(asset.id)
 
         self.next_id = max(asset.id + 1, self.next_id)
